@@ -1,24 +1,33 @@
 (* Tie between the regenerated facts of the source (coq/gen/Gen_C04.v, produced on every run by
    harness/translate_c04.py from /repo) and the literals model/C04_Legacy.v was transcribed from: the statement
    sequences and signatures of the two legacy decoders, the version dispatch, and the reader methods they alone use
-   (bytes_remaining of both readers, advance).  The literals are those of the source WITH the proposed repairs
-   F4i (bytes_remaining), F4iii (confidence != 0) and F4v (zero frames); on a tree without them these lemmas fail. *)
+   (bytes_remaining of both readers, advance).  The literals are those of the source WITH the repairs
+   F4i (bytes_remaining), F4iii (confidence != 0), F4v (zero frames) and F4ii (both decoders take the four window
+   arguments); on a tree without them these lemmas fail. *)
 From Coq Require Import String List ZArith NArith.
 Require Gen_C04.
 Import ListNotations.
 Open Scope string_scope.
 
 Definition exp_read_v0_1_signature : string :=
- "cls, header: PoseHeader, reader: BufferReader, start_frame: Optional[int]=None, end_frame: Optional[int]=None, **unused_kwargs".
+ "cls, header: PoseHeader, reader: BufferReader, start_frame: Optional[int]=None, end_frame: Optional[int]=None, start_time: Optional[int]=None, end_time: Optional[int]=None, **unused_kwargs".
 Lemma read_v0_1_signature_tie : Gen_C04.read_v0_1_signature = exp_read_v0_1_signature.
 Proof. reflexivity. Qed.
 
 Definition exp_read_v0_1_body : list string :=
-  [ "fps, _frames = reader.unpack(ConstStructs.double_ushort)";
+  [ "if start_time is not None and start_frame is not None:
+    raise ValueError('Cannot specify both start_time and start_frame')";
+    "if end_time is not None and end_frame is not None:
+    raise ValueError('Cannot specify both end_time and end_frame')";
+    "fps, _frames = reader.unpack(ConstStructs.double_ushort)";
     "_people = reader.unpack(ConstStructs.ushort)";
     "_points = sum((len(c.points) for c in header.components))";
     "_dims = header.num_dims()";
     "_frames = int(reader.bytes_remaining() / (_people * _points * (_dims + 1) * 4))";
+    "if start_time is not None:
+    start_frame = math.floor(start_time / 1000 * fps)";
+    "if end_time is not None:
+    end_frame = math.ceil(end_time / 1000 * fps)";
     "data = cls.read_v0_1_frames(_frames, (_people, _points, _dims), reader, start_frame, end_frame)";
     "confidence = cls.read_v0_1_frames(_frames, (_people, _points), reader, start_frame, end_frame)";
     "return cls(fps, data, confidence)" ].
@@ -37,12 +46,23 @@ Lemma read_dispatch_tie : Gen_C04.read_dispatch = exp_read_dispatch.
 Proof. reflexivity. Qed.
 
 Definition exp_read_v0_0_signature : string :=
- "cls, header: PoseHeader, reader: BufferReader, **unused_kwargs".
+ "cls, header: PoseHeader, reader: BufferReader, start_frame: Optional[int]=None, end_frame: Optional[int]=None, start_time: Optional[int]=None, end_time: Optional[int]=None, **unused_kwargs".
 Lemma read_v0_0_signature_tie : Gen_C04.read_v0_0_signature = exp_read_v0_0_signature.
 Proof. reflexivity. Qed.
 
 Definition exp_read_v0_0_body : list string :=
-  [ "fps, _frames = reader.unpack(ConstStructs.double_ushort)";
+  [ "if start_time is not None and start_frame is not None:
+    raise ValueError('Cannot specify both start_time and start_frame')";
+    "if end_time is not None and end_frame is not None:
+    raise ValueError('Cannot specify both end_time and end_frame')";
+    "fps, _frames = reader.unpack(ConstStructs.double_ushort)";
+    "if start_time is not None:
+    start_frame = math.floor(start_time / 1000 * fps)";
+    "if end_time is not None:
+    end_frame = math.ceil(end_time / 1000 * fps)";
+    "if start_frame is not None and start_frame > 0 and (start_frame >= _frames):
+    raise ValueError(f'Start frame {start_frame} is greater than the number of frames {_frames}')";
+    "window = slice(max(start_frame or 0, 0), None if end_frame is None else max(end_frame, 0))";
     "_dims = max([len(c.format) for c in header.components]) - 1";
     "_points = sum([len(c.points) for c in header.components])";
     "frames_d = []";
@@ -70,6 +90,7 @@ Definition exp_read_v0_0_body : list string :=
         people_c.append(np.zeros(_points))
     frames_d.append(ma.stack(people_d))
     frames_c.append(np.stack(people_c))";
+    "frames_d, frames_c = (frames_d[window], frames_c[window])";
     "if len(frames_d) == 0:
     return cls(fps, np.zeros((0, 1, _points, _dims)), np.zeros((0, 1, _points)))";
     "return cls(fps, ma.stack(frames_d), ma.stack(frames_c))" ].
